@@ -93,7 +93,7 @@ class CallMixin:
                 return self.seq_method(fr, recv, node.func.attr, args, kw, node.func.value, node)
             if isinstance(recv, SDyn) and not recv.callable and node.func.attr in PURE_DYN_METHODS_:
                 ln = getattr(node, 'lineno', None)
-                if not self.specmode and not isinstance(recv.shape, (S.Rec, S.Opaque)):
+                if not self.specmode and not isinstance(recv.shape, (S.Rec, S.Opaque)) and not self.d.contract_assumes('METHODS_PRESENT'):
                     if self.branch(Val.is_VNone(recv.t)):
                         raise PyRaise('AttributeError', ln, f"'NoneType' object has no attribute '{node.func.attr}'")
                 f = SBuiltin('dynmeth!' + node.func.attr, recv)
